@@ -36,3 +36,32 @@ func (e evasionCfg) yaml() string {
 }
 
 var crsToolchainYAML = crsEvasion.yaml()
+
+// yamlExtras adds what a toolchain.yaml may carry besides the patterns the tool reads (comments, keys it does
+// not know): variant 0 leaves the text alone.
+func yamlExtras(y string, variant int) string {
+	if !strings.HasPrefix(y, "patterns:\n") {
+		return y
+	}
+	switch variant % 4 {
+	case 1:
+		return "# configuration of the toolchain\nversion: 2\n" + y
+	case 2:
+		return y + "maintainer: crs-team\ndescription: >\n  patterns used by the cmdline processor\n"
+	case 3:
+		return "patterns:\n  experimental:\n    unix: zzz\n    windows: zzz\n" + strings.TrimPrefix(y, "patterns:\n")
+	}
+	return y
+}
+
+// crsYAMLFor picks one of the renderings of the CRS configuration by a hash of the program text.
+func crsYAMLFor(text string) string {
+	h := 0
+	for i := 0; i < len(text); i++ {
+		h = h*31 + int(text[i])
+	}
+	if h < 0 {
+		h = -h
+	}
+	return yamlExtras(crsToolchainYAML, h%8) // half of the programs see the plain file
+}
